@@ -299,7 +299,15 @@ def oracle(case, impl):
             return f"op {o}: child process failed: {result}"
         d = _parse_obs(obs)
         if g[0] == "del":
-            acked.pop(g[1], None)
+            for s_ in list(acked):  # "until it is trashed" (same bytes under another spec name too)
+                if body(s_)[1] == body(g[1])[1]:
+                    acked.pop(s_)
+        if g[0] == "untrash":
+            # Untrash renames whatever is in the trash onto the block path; if the environment's
+            # corrupt copy was trashed earlier, that is what comes back (not a PUT/crash matter)
+            for s_ in list(acked):
+                if body(s_)[1] == body(g[1])[1] and any(body(c)[1] == body(g[1])[1] for c in corrupt_seeded):
+                    acked.pop(s_)
         if g[0] == "put" and (result == "200" or result == "killed/200"):
             acked[g[1]] = o
         # (1)
@@ -324,7 +332,10 @@ def oracle(case, impl):
                 continue
             path, _, sz = ent.rpartition(":")
             sizes_on_disk.setdefault(path, []).append(sz)
-        by_hash = {body(s)[1]: s for s in specs}
+        by_hash = {}
+        for s_ in specs:  # two specs can name the same bytes (size 0): use one this observation reports
+            if s_ in d["get"]:
+                by_hash.setdefault(body(s_)[1], s_)
         for line in ([] if lines == "-" else lines.split(",")):
             m = re.match(r"^(.*)\+(\d+)@(new|old)$", line)
             if not m:
@@ -340,7 +351,7 @@ def oracle(case, impl):
                 return f"after {o}: index size {sz} of {name} is not the file's size {sizes_on_disk.get(name[:3] + '/' + name)}"
             if sz == len(b) and d["get"].get(spec, "").startswith("200/"):
                 continue
-            if spec in corrupt_seeded and sz == corrupt_len(len(b)) and not d["get"].get(spec, "").startswith("200/"):
+            if any(body(c)[1] == h for c in corrupt_seeded) and sz == corrupt_len(len(b)) and not d["get"].get(spec, "").startswith("200/"):
                 continue  # the environment's corrupt copy, still in place
             return (f"after {o}: index lists {name}+{sz} but the complete block has {len(b)} bytes "
                     f"(GET says {d['get'].get(spec)}): an incomplete block is visible")
